@@ -10,7 +10,10 @@
      tolerances the property grants.
 """
 import json
+import os
 import random
+import shutil
+import time
 import sys
 
 import forms
@@ -98,6 +101,10 @@ def main(pid):
             # with a year outside that edition's dates), so nothing written here is ambiguous and the expectation is the same
             add(sh["shape"], sh["exp"], pool[(si + j * 5) % len(pool)], "shape-ra")
             items[-1]["ra"] = True
+            if si % 12 == 0:
+                # ... and the Hyperscan tokenizer (built after another Hyperscan tokenizer over a custom extractor list)
+                add(sh["shape"], sh["exp"], pool[(si + j * 5) % len(pool)], "shape-hs")
+                items[-1]["tok"] = "hs"
     # the database dimension: minimal forms for every reporter string with the plain template
     minimal_full = next(s for s in shapes if s["shape"] == {"form": "full", "lead": "prose", "parties": "none", "preyear": False, "pin": "none",
                                                             "parallel": False, "yp": "none", "paren": "none", "term": "dot", "trail": "sentence"})
@@ -174,7 +181,12 @@ def main(pid):
     allcourts = [c for c in db["courts"] if len(c["string"]) >= 2]
     for c in (allcourts if thorough else allcourts[:: 4]):
         add(cshape["shape"], cshape["exp"], dict(pool[1], court=c["string"], court_ids=c["ids"]), "db-court")
-    obs = vlib.impl_map("drv_extract", "run_forms", items)
+    hs_dir = vlib.WORK / f"hs-{os.getpid()}-{time.time_ns()}"
+    hs_dir.mkdir(parents=True)
+    env = {"VERIF_HS_CACHE": str(hs_dir)}
+    vlib.impl_run("drv_extract", "run_forms", {"items": [{"text": "1 U.S. 1", "tok": "hs"}]}, env=env)     # compile the databases once
+    obs = vlib.impl_map("drv_extract", "run_forms", items, env=env)
+    shutil.rmtree(hs_dir, ignore_errors=True)
     traces = []
     skipped_ties = 0
     for it, ex, o, m in zip(items, exps, obs, metas):
